@@ -143,6 +143,10 @@ def failc_phase(ck, tier, broken):
             'runs_with_resets_during_increments': sum(1 for i in il if re.fullmatch(r'\d+ \d+ \d+', i) and int(i.split()[2]) >= 2),
             'rule': 'producer thread: N x increment_failure_counter(); consumer thread: get_and_reset_failure_counter() in a loop until the producer is done, '
                     'then one more after the join; pinned to two CPUs and unpinned; monitor: sum of returned values == N'}
+    notgood = ['SrcFacts.%s = %s' % (k, facts.get(k)) for k in FAILC_FACTS[:2] if facts.get(k) != 'true']
+    if notgood:
+        broken = ['T-src: ' + ', '.join(notgood) + ' (ThreadContextManager.h: the increment is not one atomic read-modify-write / the reset not one atomic exchange: '
+                  'Properties_C08.v C08_failc_split_increment_refuted / C08_failc_split_reset_refuted apply)'] + list(broken)
     if bad:
         # smallest N seen failing, then try still smaller N (a run is a few microseconds; the outcome is a race, so repeat)
         c0, i0, m0 = min(bad, key=lambda x: int(x[0].split()[1]))
